@@ -13,10 +13,12 @@ import (
 	"fmt"
 	"os"
 	"sort"
+	"strconv"
 	"strings"
 	"testing"
 	"testing/synctest"
 	"time"
+	"unicode/utf8"
 
 	"github.com/absolute8511/redcon"
 	"github.com/youzan/ZanRedisDB/node"
@@ -56,12 +58,16 @@ type sim struct {
 
 	on08, on09, on12, on13 bool
 
-	tuples []tuple
-	cache  map[string]string // C12: last observed content per tuple
-	preLen int
-	cur    map[string]string // known-finding key of the command shapes just executed, per addressed tuple
-	fresh  map[string]bool   // tainted by the command(s) being judged right now
-	taint  map[string]string // tuples damaged by a recorded deviation (no further judgement)
+	tuples   []tuple
+	cache    map[string]string // C12: last observed content per tuple
+	pre      preState
+	unjudged bool              // the batch being processed cannot be judged against the model
+	panics   int               // recovered handler panics of a recorded shape
+	poison   bool              // a command that fails at apply time is in the raft log
+	envKey   string            // known-finding key for kv/hash content lost or resurrected by the current restart
+	cur      map[string]string // known-finding key of the command shapes just executed, per addressed tuple
+	fresh    map[string]bool   // tainted by the command(s) being judged right now
+	taint    map[string]string // tuples damaged by a recorded deviation (no further judgement)
 
 	ncmd, ncompared, nbatch, nbatched, nenv int
 	restores                                int
@@ -314,6 +320,10 @@ func (s *sim) cmdScenario() {
 	for _, typ := range types {
 		for _, tb := range p.tables {
 			for _, k := range p.keys {
+				if k == "" && typ != "kv" {
+					// collections refuse an empty key name ("invalid key size"); strings accept it
+					continue
+				}
 				s.tuples = append(s.tuples, tuple{typ, tb + ":" + k})
 			}
 		}
@@ -321,7 +331,7 @@ func (s *sim) cmdScenario() {
 	c.Log("pools", "%q", p)
 	if s.on12 {
 		for _, x := range s.tuples {
-			s.cache[x.id()] = model.Canon(s.rd(model.DumpCmd(x.typ, x.key)...))
+			s.cache[x.id()] = s.observe(x)
 		}
 	}
 	w := []int{g.wCmd, g.wBatch, g.wStop, g.wKill, g.wSleep, g.wCompact, g.wTick, g.wTableDel}
@@ -370,11 +380,18 @@ func (s *sim) note(args []string, r interface{}) {
 
 // one runs a single command and all oracles on it.
 func (s *sim) one(args []string) {
-	s.preLen = -1
+	// ground truth for the shapes of recorded deviations only
+	s.pre = preState{known: true, listLen: -1}
 	if args[0] == "ltrim" && len(args) > 1 {
-		// ground truth for the shape of a recorded LTRIM deviation only
 		if n, ok := num(s.rd("llen", args[1])); ok {
-			s.preLen = int(n)
+			s.pre.listLen = int(n)
+		}
+	}
+	if args[0] == "zincrby" && len(args) == 4 {
+		if b, ok := s.rd("zscore", args[1], args[3]).([]byte); ok {
+			if f, err := strconv.ParseFloat(string(b), 64); err == nil {
+				s.pre.zhad, s.pre.zscore = true, f
+			}
 		}
 	}
 	r := s.do(args)
@@ -395,6 +412,15 @@ func (s *sim) after(cmds [][]string, replies []interface{}, ctx string) {
 	broken := false
 	for i, args := range cmds {
 		if closedConn(replies[i]) {
+			if k := panicShape(args); k != "" {
+				s.panics++
+				// recorded deviation; the command was not executed
+				c.Violate(s.prop("C08"), "handler-panic-or-no-reply", k, "%s%s: %s", ctx, q(args), nodeh.Fmt(replies[i]))
+				for _, x := range touched(args) {
+					tset[x.id()] = x
+				}
+				continue
+			}
 			c.Violate(s.prop("C08"), "handler-panic-or-no-reply", "", "%s%s: %s", ctx, q(args), nodeh.Fmt(replies[i]))
 			return
 		}
@@ -402,20 +428,36 @@ func (s *sim) after(cmds [][]string, replies []interface{}, ctx string) {
 		if useModel {
 			want = s.mdl.Apply(args)
 		}
-		preLen := -1
+		pre := preState{listLen: -1}
 		if len(cmds) == 1 {
-			preLen = s.preLen
+			pre = s.pre
 		}
-		key := knownShape(args, want, s.mdl, preLen, s.cfg.engine)
+		key := knownShape(args, want, s.mdl, pre, s.cfg.engine)
+		if key == "" && s.panics > 0 && slowCmd(args[0]) {
+			if e, ok := replies[i].(nodeh.RErr); ok && strings.Contains(string(e), "context deadline exceeded") {
+				// every recovered panic above leaked one slot of the slow-write wait queue
+				key = "non-utf8-table-name-panics-in-slow-write-metrics"
+			}
+		}
+		if laterFailingSetex([][]string{args}) {
+			// this entry is in the raft log now and fails whenever it is applied
+			s.poison = true
+		}
+		if key == "" && len(cmds) > 1 && batchable(args) && laterFailingSetex(cmds[i+1:]) {
+			key = "batched-write-fails-with-neighbours-error"
+		}
 		tainted := false
 		for _, x := range touched(args) {
 			tset[x.id()] = x
-			if key != "" {
+			if key != "" && s.cur[x.id()] == "" {
 				s.cur[x.id()] = key
 			}
 			if s.taint[x.id()] != "" {
 				tainted = true
 			}
+		}
+		if s.unjudged {
+			broken = true
 		}
 		if useModel && !broken {
 			if tainted {
@@ -452,7 +494,7 @@ func (s *sim) after(cmds [][]string, replies []interface{}, ctx string) {
 	}
 	where := ctx + "after " + q(cmds[len(cmds)-1])
 	for _, x := range ts {
-		if useModel {
+		if useModel && !s.unjudged {
 			s.dataCheck(x, where)
 		}
 		if s.on09 {
@@ -511,6 +553,9 @@ func (s *sim) dataCheck(x tuple, ctx string) {
 			continue
 		}
 		key := s.cur[x.id()]
+		if key == "" && s.envKey != "" && (x.typ == "kv" || x.typ == "hash") {
+			key = s.envKey
+		}
 		if !survey(key, "data %s after %s => impl %s | model %s", q(p.cmd), ctx, nodeh.Fmt(got), model.Canon(p.want)) {
 			prop, rule := s.prop("C08"), "data-differs-from-model"
 			if s.c.Prop == "C12" {
@@ -590,11 +635,18 @@ func (s *sim) batch() {
 	fg := &gen{t: t, p: s.g.p, plain: s.g.plain}
 	fg.p.tables, fg.p.keys = []string{tb}, []string{kn}
 	if t.Bool(300) {
-		fg.p.keys = []string{kn, s.g.pick(s.g.p.keys)}
+		if k2 := s.g.pick(s.g.p.keys); k2 != "" {
+			fg.p.keys = []string{kn, k2}
+		}
 	}
 	ftyp := ""
 	if t.Bool(700) {
 		ftyp = types[t.Choose(len(types))]
+	}
+	if kn == "" {
+		// only strings accept the empty key name
+		ftyp = "kv"
+		fg.p.keys = []string{kn}
 	}
 	var cmds [][]string
 	for i := 0; i < k; i++ {
@@ -660,7 +712,134 @@ func (s *sim) batch() {
 		s.note(append([]string{"(batch)"}, ocmds[i]...), oreps[i])
 	}
 	c.Log("batch", "n=%d queued=%d applies=%d", k, queued, applies)
+	s.unjudged = false
+	if s.on08 || s.on12 {
+		var explained bool
+		ocmds, oreps, explained = s.linearize(ocmds, oreps, k-queued)
+		if !explained && (s.panics > 0 || s.batchHasKnownShape(ocmds)) {
+			// no order explains the batch, and it contains a recorded deviation
+			// (or the slow-write queue has leaked slots, which delays and
+			// times out commands): replies and data of this batch are not judged
+			s.unjudged = true
+			c.Probe("batch_not_judged_known_deviation_inside")
+		}
+	}
 	s.after(ocmds, oreps, "in one apply batch: ")
+	s.unjudged = false
+}
+
+// linearize: the calls of a batch that went through raft are concurrent (none
+// returned before all were started), so any order of them is a legal
+// linearization; the implementation normally applies them in the order they
+// were proposed, but a command may be held back before it is proposed (the
+// slow-write limiter queues some commands). If the proposal order does not
+// explain the replies and the resulting data, every other order is tried;
+// the first one that explains everything is used. The first nimm commands
+// (answered before anything was applied) stay in front.
+func (s *sim) linearize(cmds [][]string, reps []interface{}, nimm int) ([][]string, []interface{}, bool) {
+	n := len(cmds) - nimm
+	var ts []tuple
+	seen := map[string]bool{}
+	for _, a := range cmds {
+		for _, x := range touched(a) {
+			if !seen[x.id()] {
+				seen[x.id()] = true
+				ts = append(ts, x)
+			}
+		}
+	}
+	for _, r := range reps {
+		if closedConn(r) {
+			return cmds, reps, false
+		}
+	}
+	final := map[string]string{}
+	for _, x := range ts {
+		final[x.id()] = model.Canon(s.rd(model.DumpCmd(x.typ, x.key)...))
+	}
+	explains := func(order []int) bool {
+		m := s.mdl.Clone()
+		for i := 0; i < nimm; i++ {
+			if !model.Equal(reps[i], m.Apply(cmds[i])) {
+				return false
+			}
+		}
+		for _, j := range order {
+			if !model.Equal(reps[nimm+j], m.Apply(cmds[nimm+j])) {
+				return false
+			}
+		}
+		for _, x := range ts {
+			if model.Canon(m.Dump(x.typ, x.key)) != final[x.id()] {
+				return false
+			}
+		}
+		return true
+	}
+	order := make([]int, n)
+	for i := range order {
+		order[i] = i
+	}
+	if explains(order) {
+		return cmds, reps, true
+	}
+	if n < 2 || n > 7 {
+		return cmds, reps, false
+	}
+	var found []int
+	var perm func(k int)
+	perm = func(k int) {
+		if found != nil {
+			return
+		}
+		if k == n {
+			if explains(order) {
+				found = append([]int{}, order...)
+			}
+			return
+		}
+		for i := k; i < n; i++ {
+			order[k], order[i] = order[i], order[k]
+			perm(k + 1)
+			order[k], order[i] = order[i], order[k]
+		}
+	}
+	perm(0)
+	if found == nil {
+		return cmds, reps, false
+	}
+	s.c.Probe("batch_explained_by_other_order")
+	s.c.Log("batch-order", "%v", found)
+	oc := append([][]string{}, cmds[:nimm]...)
+	or := append([]interface{}{}, reps[:nimm]...)
+	for _, j := range found {
+		oc = append(oc, cmds[nimm+j])
+		or = append(or, reps[nimm+j])
+	}
+	return oc, or, true
+}
+
+// batchHasKnownShape: some command of the batch has the shape of a recorded
+// deviation (judged on a copy of the model, in proposal order).
+func (s *sim) batchHasKnownShape(cmds [][]string) bool {
+	m := s.mdl.Clone()
+	for i, a := range cmds {
+		want := m.Apply(a)
+		if knownShape(a, want, m, preState{listLen: -1}, s.cfg.engine) != "" || panicShape(a) != "" {
+			return true
+		}
+		if batchable(a) && laterFailingSetex(cmds[i+1:]) {
+			return true
+		}
+		if model.TypeOf(a[0]) == "zset" {
+			for _, x := range a[2:] {
+				if strings.HasPrefix(x, "(") || strings.Contains(strings.ToLower(x), "inf") || x == "+" || x == "-" {
+					return true
+				}
+			}
+		}
+	}
+	return false
 }
 
 func (s *sim) restart(kill bool) {
@@ -696,7 +875,13 @@ func (s *sim) restart(kill bool) {
 		c.Probe("restart_replayed")
 	}
 	s.nenv++
+	if s.poison {
+		// recorded deviation: the log holds a SETEX that fails when applied; on
+		// replay it shares one apply batch with its neighbours and aborts them
+		s.envKey = "failing-setex-in-log-aborts-neighbours-on-replay"
+	}
 	s.fullCheck(what)
+	s.envKey = ""
 }
 
 // tableDelete removes one whole table through the node API the HTTP
@@ -730,10 +915,31 @@ func (s *sim) tableDelete() {
 	for _, x := range s.tuples {
 		if strings.HasPrefix(x.key, tb+":") {
 			ts[x.id()] = x
-			s.mdl.Load(x.typ, x.key, nil)
 		}
 	}
 	ctx := fmt.Sprintf("after whole-table delete of %q", tb)
+	if !utf8.ValidString(tb) {
+		// recorded deviation: the request travels as JSON, which replaces the
+		// bytes that are not UTF-8, so another (non-existing) table is deleted
+		left := false
+		for _, id := range core.SortedKeys(ts) {
+			x := ts[id]
+			if r := s.rd(existCmd[x.typ], x.key); r == int64(1) {
+				left = true
+			}
+		}
+		if left {
+			c.Violate(s.prop("C12"), "table-delete-incomplete", "table-delete-mangles-non-utf8-table-name", "%s every key of the table is still there", ctx)
+		}
+		if s.on12 {
+			s.check12(map[string]tuple{}, ctx)
+		}
+		return
+	}
+	for _, id := range core.SortedKeys(ts) {
+		x := ts[id]
+		s.mdl.Load(x.typ, x.key, nil)
+	}
 	for _, id := range core.SortedKeys(ts) {
 		x := ts[id]
 		s.dataCheck(x, ctx)
